@@ -8,7 +8,7 @@ cd /verif
 VX_REPO=$WT bin/vchk run "$ID" --no-evidence "$@" > /tmp/tsw.$$.log 2>&1
 rc=$?
 git -C /repo worktree remove --force $WT
-grep -E "^(VIOLATION|INCONCLUSIVE|KNOWN|UNCONFIRMED|entry)|label=" /tmp/tsw.$$.log | cut -c1-260 | head -14
+grep -E "^(VIOLATION|INCONCLUSIVE|KNOWN|UNCONFIRMED|entry)|label=|coverage gap" /tmp/tsw.$$.log | cut -c1-260 | head -14
 rm -f /tmp/tsw.$$.log
 echo "exit=$rc"
 exit $rc
